@@ -5,6 +5,7 @@ Require Import Cache C03Span C03SpanProofs C03LintGroup C03LintGroupProofs.
 Require Import C05Lru C03LintGroupLru C03LintGroupLruProofs Tables_c03cache.
 Require TokenSeq Pattern.
 Require Import C03ChunkPremise.
+Require C03Roots Tables_c03roots C03RootsProofs.
 
 (* the edit primitive: total on spans inside the text *)
 Theorem C03_apply_total : forall s sp src, span_in (length src) sp -> is_ok (apply s sp src) = true.
@@ -316,12 +317,13 @@ Proof. vm_compute. repeat split. Qed.
    calls and evictions on ONE LintGroup (any eviction schedule = any LRU capacity; ANY hash functions, collisions
    included) starting from a cache that satisfies the invariant (an empty one does): no call panics, every call is
    answered, and every lint of every answer lies inside the document of that call.  Documents satisfy the token
-   invariant as far as needed (hist_ok: every chunk's hull ends inside the source). *)
+   invariant as far as needed (hist_ok: every chunk's hull ends inside the source, every token has start <= end; the
+   pattern rules' premise is asked for such chunks only — phase 5 — so that C03_table_pattern_rules_ok can discharge it). *)
 Theorem C03_lintgroup_history_in_bounds :
   forall (cfg kind : Type) (enabled : cfg -> N -> bool) (cfg_hash : cfg -> N) (tok_hash : list (tok kind) -> N)
          (linters : list (N * wrule kind)) (plinters : list (N * prule kind)),
     (forall n r t d, In (n, r) linters -> doc_ok kind d -> Forall (lint_in (length (l_src d))) (r t d)) ->
-    (forall n r t src ts sp, In (n, r) plinters -> hull_of ts = Ok (Some sp) -> send sp <= length src ->
+    (forall n r t src ts sp, In (n, r) plinters -> toks_wf kind ts -> hull_of ts = Ok (Some sp) -> send sp <= length src ->
         Forall (lint_within sp) (r t src ts)) ->
     forall (h : list (lop cfg kind)) (st : lstate cfg),
       hist_ok cfg kind h -> cache_ok (lg_cache st) ->
@@ -335,7 +337,7 @@ Check C03_lintgroup_history_in_bounds :
   forall (cfg kind : Type) (enabled : cfg -> N -> bool) (cfg_hash : cfg -> N) (tok_hash : list (tok kind) -> N)
          (linters : list (N * wrule kind)) (plinters : list (N * prule kind)),
     (forall n r t d, In (n, r) linters -> doc_ok kind d -> Forall (lint_in (length (l_src d))) (r t d)) ->
-    (forall n r t src ts sp, In (n, r) plinters -> hull_of ts = Ok (Some sp) -> send sp <= length src ->
+    (forall n r t src ts sp, In (n, r) plinters -> toks_wf kind ts -> hull_of ts = Ok (Some sp) -> send sp <= length src ->
         Forall (lint_within sp) (r t src ts)) ->
     forall (h : list (lop cfg kind)) (st : lstate cfg),
       hist_ok cfg kind h -> cache_ok (lg_cache st) ->
@@ -413,7 +415,7 @@ Theorem C03_lintgroup_lru_history_in_bounds :
   forall (cfg kind : Type) (enabled : cfg -> N -> bool) (cfg_hash : cfg -> N) (tok_hash : list (tok kind) -> N)
          (linters : list (N * wrule kind)) (plinters : list (N * prule kind)) (cap : nat),
     (forall n r t d, In (n, r) linters -> doc_ok kind d -> Forall (lint_in (length (l_src d))) (r t d)) ->
-    (forall n r t src ts sp, In (n, r) plinters -> hull_of ts = Ok (Some sp) -> send sp <= length src ->
+    (forall n r t src ts sp, In (n, r) plinters -> toks_wf kind ts -> hull_of ts = Ok (Some sp) -> send sp <= length src ->
         Forall (lint_within sp) (r t src ts)) ->
     forall (h : list (lrop cfg kind)) (st : lstate cfg),
       rhist_ok cfg kind h -> cache_ok (lg_cache st) -> NoDup (map fst (lg_cache st)) ->
@@ -426,7 +428,7 @@ Check C03_lintgroup_lru_history_in_bounds :
   forall (cfg kind : Type) (enabled : cfg -> N -> bool) (cfg_hash : cfg -> N) (tok_hash : list (tok kind) -> N)
          (linters : list (N * wrule kind)) (plinters : list (N * prule kind)) (cap : nat),
     (forall n r t d, In (n, r) linters -> doc_ok kind d -> Forall (lint_in (length (l_src d))) (r t d)) ->
-    (forall n r t src ts sp, In (n, r) plinters -> hull_of ts = Ok (Some sp) -> send sp <= length src ->
+    (forall n r t src ts sp, In (n, r) plinters -> toks_wf kind ts -> hull_of ts = Ok (Some sp) -> send sp <= length src ->
         Forall (lint_within sp) (r t src ts)) ->
     forall (h : list (lrop cfg kind)) (st : lstate cfg),
       rhist_ok cfg kind h -> cache_ok (lg_cache st) -> NoDup (map fst (lg_cache st)) ->
@@ -504,3 +506,141 @@ Example C03_nonvacuous :
   apply Remove (mkspan 0 2) [97; 98; 99; 100]%N = Ok [99; 100]%N /\
   apply (InsertAfter [44]%N) (mkspan 2 5) [97; 98; 99; 100]%N = Panic PIndex.
 Proof. vm_compute. repeat split. Qed.
+
+
+(* ================= phase 5: the pattern rules' bodies — span sources with their ROOT variable (Model/C03Roots.v) ================= *)
+(* the expression language the table parses rule bodies into (a token of the matched slice by constant / first / last /
+   len-k / run-time index; the hull of a sub-slice with constant or run-time bounds): whatever span an expression
+   denotes on a slice whose tokens lie in a window lies in that window, for EVERY value of the run-time indices.  No
+   side condition (an index out of range, `?` on None, the hull of an empty slice: no lint). *)
+Theorem C03_span_expr_within_window :
+  forall (kind : Type) lo hi (mt : list (Cache.tok kind)) dyn a s,
+    Forall (fun t => lo <= sstart (snd t) /\ sstart (snd t) <= send (snd t) /\ send (snd t) <= hi) mt ->
+    C03Roots.eval_src mt dyn a = Some s ->
+    lo <= sstart s /\ sstart s <= send s /\ send s <= hi.
+Proof. exact C03RootsProofs.eval_src_within. Qed.
+Check C03_span_expr_within_window :
+  forall (kind : Type) lo hi (mt : list (Cache.tok kind)) dyn a s,
+    Forall (fun t => lo <= sstart (snd t) /\ sstart (snd t) <= send (snd t) /\ send (snd t) <= hi) mt ->
+    C03Roots.eval_src mt dyn a = Some s ->
+    lo <= sstart s /\ sstart s <= send s /\ send s <= hi.
+Print Assumptions C03_span_expr_within_window.
+
+(* what the regenerated table says about harper-core/src/linting/** today: in every `impl PatternLinter for X` the span of
+   every Lint construction of match_to_lint, and the receiver of every get_content / get_content_string, parses into the
+   language AND is rooted in the matched-tokens parameter (not shadowed) — the lists of exceptions are empty; no such
+   file constructs a Lint outside match_to_lint; every name LintGroup registers with insert_pattern_rule!, and every type
+   registered through add_pattern_linter elsewhere (MapPhraseLinter, ProperNounCapitalizationLinter), is a row *)
+Theorem C03_pattern_rule_table_rooted :
+  C03RootsProofs.rows_not_matched = nil /\ C03RootsProofs.rows_reads_not_matched = nil /\
+  Tables_c03roots.pattern_files_lints_outside = nil /\
+  forallb C03RootsProofs.name_is_row Tables_c03roots.curated_pattern_rules = true /\
+  forallb (fun fr => C03RootsProofs.name_is_row (snd fr)) Tables_c03roots.other_pattern_registrations = true /\
+  20 <= length Tables_c03roots.curated_pattern_rules /\ 30 <= length Tables_c03roots.pattern_rule_bodies.
+Proof. exact C03RootsProofs.table_all_rooted_in_matched_tokens. Qed.
+Check C03_pattern_rule_table_rooted :
+  C03RootsProofs.rows_not_matched = nil /\ C03RootsProofs.rows_reads_not_matched = nil /\
+  Tables_c03roots.pattern_files_lints_outside = nil /\
+  forallb C03RootsProofs.name_is_row Tables_c03roots.curated_pattern_rules = true /\
+  forallb (fun fr => C03RootsProofs.name_is_row (snd fr)) Tables_c03roots.other_pattern_registrations = true /\
+  20 <= length Tables_c03roots.curated_pattern_rules /\ 30 <= length Tables_c03roots.pattern_rule_bodies.
+Print Assumptions C03_pattern_rule_table_rooted.
+
+(* THE CHUNK PREMISE, DISCHARGED: a LintGroup whose pattern rules are rules of the table — run_on_chunk (Pattern.v) with
+   ANY pattern and closures, a body that reaches any of the row's Lint constructions with any run-time values and any
+   payload, or none — satisfies the premise `prules_ok` of C03_lintgroup_history_in_bounds.  Trusted here: the scanner
+   (that a body's lint span IS what the row says); tied by the `R` correspondence lines. *)
+Theorem C03_table_pattern_rules_ok :
+  forall (plinters : list (N * prule C03Roots.pkind)),
+    (forall n r, In (n, r) plinters ->
+       exists row leaf oracle p sel,
+         In row Tables_c03roots.pattern_rule_bodies /\ C03Roots.row_lints_matched row = true /\
+         r = C03Roots.pattern_prule leaf oracle p (C03Roots.row_lint_asts row) sel) ->
+    forall n r t src ts sp, In (n, r) plinters -> toks_wf C03Roots.pkind ts -> hull_of ts = Ok (Some sp) -> send sp <= length src ->
+      Forall (lint_within sp) (r t src ts).
+Proof. exact C03RootsProofs.table_pattern_rules_ok. Qed.
+Check C03_table_pattern_rules_ok :
+  forall (plinters : list (N * prule C03Roots.pkind)),
+    (forall n r, In (n, r) plinters ->
+       exists row leaf oracle p sel,
+         In row Tables_c03roots.pattern_rule_bodies /\ C03Roots.row_lints_matched row = true /\
+         r = C03Roots.pattern_prule leaf oracle p (C03Roots.row_lint_asts row) sel) ->
+    forall n r t src ts sp, In (n, r) plinters -> toks_wf C03Roots.pkind ts -> hull_of ts = Ok (Some sp) -> send sp <= length src ->
+      Forall (lint_within sp) (r t src ts).
+Print Assumptions C03_table_pattern_rules_ok.
+
+(* ... hence over every history of such a LintGroup only the WHOLE-DOCUMENT rules need a premise *)
+Theorem C03_table_lintgroup_history_in_bounds :
+  forall (cfg : Type) (enabled : cfg -> N -> bool) (cfg_hash : cfg -> N) (tok_hash : list (Cache.tok C03Roots.pkind) -> N)
+         (linters : list (N * wrule C03Roots.pkind)) (plinters : list (N * prule C03Roots.pkind)),
+    (forall n r t d, In (n, r) linters -> doc_ok C03Roots.pkind d -> Forall (lint_in (length (l_src d))) (r t d)) ->
+    (forall n r, In (n, r) plinters ->
+       exists row leaf oracle p sel,
+         In row Tables_c03roots.pattern_rule_bodies /\ C03Roots.row_lints_matched row = true /\
+         r = C03Roots.pattern_prule leaf oracle p (C03Roots.row_lint_asts row) sel) ->
+    forall (h : list (lop cfg C03Roots.pkind)) (st : lstate cfg),
+      hist_ok cfg C03Roots.pkind h -> cache_ok (lg_cache st) ->
+      exists st' outs,
+        lg_run cfg C03Roots.pkind enabled cfg_hash tok_hash linters plinters h st = Ok (st', outs) /\
+        cache_ok (lg_cache st') /\
+        map fst outs = hist_docs cfg C03Roots.pkind h /\
+        Forall (fun p => Forall (lint_in (length (l_src (fst p)))) (snd p)) outs.
+Proof. exact C03RootsProofs.table_lintgroup_history_in_bounds. Qed.
+Check C03_table_lintgroup_history_in_bounds :
+  forall (cfg : Type) (enabled : cfg -> N -> bool) (cfg_hash : cfg -> N) (tok_hash : list (Cache.tok C03Roots.pkind) -> N)
+         (linters : list (N * wrule C03Roots.pkind)) (plinters : list (N * prule C03Roots.pkind)),
+    (forall n r t d, In (n, r) linters -> doc_ok C03Roots.pkind d -> Forall (lint_in (length (l_src d))) (r t d)) ->
+    (forall n r, In (n, r) plinters ->
+       exists row leaf oracle p sel,
+         In row Tables_c03roots.pattern_rule_bodies /\ C03Roots.row_lints_matched row = true /\
+         r = C03Roots.pattern_prule leaf oracle p (C03Roots.row_lint_asts row) sel) ->
+    forall (h : list (lop cfg C03Roots.pkind)) (st : lstate cfg),
+      hist_ok cfg C03Roots.pkind h -> cache_ok (lg_cache st) ->
+      exists st' outs,
+        lg_run cfg C03Roots.pkind enabled cfg_hash tok_hash linters plinters h st = Ok (st', outs) /\
+        cache_ok (lg_cache st') /\
+        map fst outs = hist_docs cfg C03Roots.pkind h /\
+        Forall (fun p => Forall (lint_in (length (l_src (fst p)))) (snd p)) outs.
+Print Assumptions C03_table_lintgroup_history_in_bounds.
+
+(* every span a pattern rule body READS (the table's SRead sites are expressions over the matched tokens as well): inside
+   the chunk, hence inside the source — get_content is total on it and returns end - start characters (no panic) *)
+Theorem C03_pattern_reads_inside_source :
+  forall (kind : Type) (ts mt : list (Cache.tok kind)) sp dyn a s (src : text),
+    toks_wf kind ts -> hull_of ts = Ok (Some sp) -> send sp <= length src -> incl mt ts ->
+    C03Roots.eval_src mt dyn a = Some s ->
+    exists chars, get_content s src = Ok chars /\ length chars = send s - sstart s.
+Proof. exact C03RootsProofs.eval_src_read_ok. Qed.
+Check C03_pattern_reads_inside_source :
+  forall (kind : Type) (ts mt : list (Cache.tok kind)) sp dyn a s (src : text),
+    toks_wf kind ts -> hull_of ts = Ok (Some sp) -> send sp <= length src -> incl mt ts ->
+    C03Roots.eval_src mt dyn a = Some s ->
+    exists chars, get_content s src = Ok chars /\ length chars = send s - sstart s.
+Print Assumptions C03_pattern_reads_inside_source.
+
+(* census (regenerated table): of the Suggestion constructions in pattern rule bodies none is given characters read from a
+   span that is not an expression over the matched tokens; those reading matched tokens beyond the lint's own span are
+   C03RootsProofs.payloads_beyond_lint_span (DotInitialisms, ModalOf, MultipleSequentialPronouns x2, ThatWhich, WasAloud,
+   LetUsRedundancy today; in all seven the token read is one of the tokens the lint span is the hull of, so by hand: the
+   characters still come from inside the lint span — notes/C03.md) *)
+Theorem C03_pattern_suggestion_payloads_known :
+  filter C03RootsProofs.payload_other Tables_c03roots.pattern_suggestion_payloads = nil /\
+  30 <= length Tables_c03roots.pattern_suggestion_payloads.
+Proof. exact C03RootsProofs.pattern_suggestion_payloads_known. Qed.
+Check C03_pattern_suggestion_payloads_known :
+  filter C03RootsProofs.payload_other Tables_c03roots.pattern_suggestion_payloads = nil /\
+  30 <= length Tables_c03roots.pattern_suggestion_payloads.
+Print Assumptions C03_pattern_suggestion_payloads_known.
+
+(* non-vacuity: the row of Hereby (`matched_tokens[0..3].span()?`) as a rule of the table on the clause "ab cd ef." at
+   2..11: two matches, two lints inside the chunk; len-3, run-time bounds, an index out of range, a slice too short *)
+Example C03_table_rule_nonvacuous :
+  C03Roots.row_lint_asts C03RootsProofs.exr_row = [C03Roots.AHull (Some (C03Roots.IConst 0)) (C03Roots.HExcl (C03Roots.IConst 3))] /\
+  C03RootsProofs.table_rule C03RootsProofs.exr_rule /\
+  hull_of C03RootsProofs.exr_chunk = Ok (Some (mkspan 2 11)) /\
+  C03RootsProofs.exr_rule 0 [] C03RootsProofs.exr_chunk = [mkclint (mkspan 2 7) 5%N; mkclint (mkspan 7 11) 5%N] /\
+  C03Roots.eval_src C03RootsProofs.exr_chunk (fun _ => 0) (C03Roots.ATok (C03Roots.ILenMinus 3)) = Some (mkspan 7 8) /\
+  C03Roots.eval_src C03RootsProofs.exr_chunk (fun j => 4 + j) (C03Roots.AHull (Some (C03Roots.IDyn 0)) (C03Roots.HIncl (C03Roots.IDyn 1))) = Some (mkspan 8 11) /\
+  C03Roots.eval_src C03RootsProofs.exr_chunk (fun _ => 6) (C03Roots.ATok (C03Roots.IDyn 0)) = None /\
+  C03Roots.eval_src (firstn 2 C03RootsProofs.exr_chunk) (fun _ => 0) (C03Roots.AHull (Some (C03Roots.IConst 0)) (C03Roots.HExcl (C03Roots.IConst 3))) = None.
+Proof. exact (proj2 C03RootsProofs.table_rule_example). Qed.
